@@ -521,6 +521,7 @@ def run(tier):
         c04.o6(prog, rep)
         c13.h4(prog, rep)
         c13.h5(prog, rep)
+        c13.h7_keychange(prog, rep)
         # "when it wakes because a descriptor became ready it runs that callback": what the poll reported reaches the getter
         # (readiness bits, error/hang-up widening and its order; rules shared with C04)
         c04.o4_o5(prog, rep)
